@@ -8,6 +8,7 @@ import os
 import re
 import shutil
 import subprocess
+import threading
 import sys
 import time
 
@@ -64,6 +65,8 @@ class Ctx:
         if os.path.exists(kf):
             self.known = json.load(open(kf)).get("findings", [])
         self._nrep = 0
+        self._ntmp = 0
+        self._lock = threading.RLock()
 
     # ------------------------------------------------------------------ builds
     def build(self, pkg, features=(), release=False, bin_name=None):
@@ -201,7 +204,7 @@ class Ctx:
         return res
 
     def tlc_trace(self, module, cfg, trace, spec_dir=None, name=None, timeout=900, env=None,
-                  xmx="4g", key=None, what=None, ntraces=None, keyfn=None):
+                  xmx="4g", key=None, what=None, ntraces=None, keyfn=None, replay_whole=False):
         """Validate one NDJSON trace file against a trace specification. The specification must
         print `TRACE_REJECTED` (from its POSTCONDITION or from an invariant) when it cannot match
         the whole file. Returns dict(accepted, matched, total, detail). A rejection is recorded as
@@ -241,10 +244,13 @@ class Ctx:
         # Row mode: the trace spec consumed every line but printed `ROW_REJECTED l=<n>` for each
         # line (or history, at its first line) that the specification does not allow. Each one is
         # classified separately so that a known finding does not mask a different violation.
-        bad = sorted({int(x) for x in re.findall(r"ROW_REJECTED l=(\d+)", out)})
+        tags = {}
+        for n, t in re.findall(r'ROW_REJECTED l=(\d+)(?: tag=([^\s"]+))?', out):
+            tags.setdefault(int(n), t)
+        bad = sorted(tags)
         res["rejected_rows"] = len(bad)
+        res["ignored_rows"] = 0
         if bad and not rejected:
-            res["accepted"] = False
             lines = open(trace).read().splitlines()
             seen = {}
             for n in bad:
@@ -252,23 +258,41 @@ class Ctx:
                 k = key
                 if keyfn is not None:
                     try:
-                        k = keyfn(json.loads(row))
+                        r = json.loads(row) if row else {}
+                        r["_tag"], r["_line"] = tags[n], n
+                        k = keyfn(r)
                     except Exception as ex:  # noqa: BLE001
                         k = "%s:unparsable-row(%s)" % (key, ex)
+                    if k is None:      # the failed guard belongs to another property
+                        res["ignored_rows"] += 1
+                        continue
+                elif tags[n]:
+                    k = "%s:%s" % (key or name, tags[n])
                 seen.setdefault(k or (name + ":row"), []).append((n, row))
+            res["accepted"] = not seen
             for k, rows in seen.items():
-                tmp = os.path.join(self.work, "rejected_%s.ndjson" % re.sub(r"\W+", "_", k)[:80])
+                with self._lock:
+                    self._ntmp += 1
+                    tmp = os.path.join(self.work, "rejected_%d_%s.ndjson" % (
+                        self._ntmp, re.sub(r"\W+", "_", k)[:80]))
                 with open(tmp, "w") as f:
-                    for n, row in rows[:50]:
-                        f.write(row + "\n")
-                self.violation(k, (what or "row rejected by the specification") +
-                               " (%d row(s), first at line %d)" % (len(rows), rows[0][0]), tmp,
+                    if replay_whole:
+                        f.write("\n".join(lines) + "\n")
+                    else:
+                        for n, row in rows[:50]:
+                            f.write(row + "\n")
+                self.violation(k, (what or "rejected by the specification") +
+                               " (%d place(s), first at line %d of %s)" % (
+                                   len(rows), rows[0][0], os.path.basename(trace)), tmp,
                                extra=rows[0][1][:1500])
-            self.cov["trace_runs"].append({k2: res[k2] for k2 in
-                                           ("name", "accepted", "events", "states", "wall_s",
-                                            "rejected_rows")})
-            if ntraces is not None:
-                self.cov["traces_validated_against_impl"] += max(0, ntraces - len(bad))
+            with self._lock:
+                self.cov["trace_runs"].append({k2: res[k2] for k2 in
+                                               ("name", "accepted", "events", "states", "wall_s",
+                                                "rejected_rows", "ignored_rows")})
+                if ntraces is not None:
+                    self.cov["traces_validated_against_impl"] += max(0, ntraces - len(bad))
+                elif res["accepted"]:
+                    self.cov["traces_validated_against_impl"] += 1
             return res
         self.cov["trace_runs"].append({k: res[k] for k in
                                        ("name", "accepted", "events", "states", "wall_s")})
@@ -291,6 +315,10 @@ class Ctx:
     def violation(self, key, what, replay_src=None, extra=None):
         """Record a violation identified by `key`. Known findings print KNOWN-FINDING and do not
         fail the check; anything else prints a VIOLATION line with a replay file."""
+        with self._lock:
+            return self._violation(key, what, replay_src, extra)
+
+    def _violation(self, key, what, replay_src=None, extra=None):
         f = self._known(key)
         if f is not None:
             if key not in [k for k, _ in self.known_hits]:
